@@ -267,6 +267,21 @@ func checkC13(e *Engine, r *Report) {
 		r.Check("R6:lifecycle-state-recorded@"+t.handler, "R2 re-admission", "a successful "+strings.TrimPrefix(t.handler, "nriPlugin.")+" of a known container records it as "+strings.TrimPrefix(t.state, "ContainerState")+" (the state re-admission after a configuration update goes by)", e.Pos(fn.Pos()), fn, p == nil && len(lookedUp) > 0, e.pathString(p), true)
 	}
 
+	// … and UpdateState really records: it stores its argument as the container's state
+	if fn := r.Anchor(pkgCA, "container.UpdateState"); fn != nil && len(fn.Params) == 2 {
+		stP := ssa.Value(fn.Params[1])
+		stores := func(in ssa.Instruction) bool {
+			st, ok := in.(*ssa.Store)
+			if !ok || !sameObject(st.Val, stP) {
+				return false
+			}
+			f := fieldOfAddr(st.Addr)
+			return f != nil && f.Name() == "State"
+		}
+		p := FindPath(PathQuery{Fn: fn, Target: isRet, Block: stores})
+		r.Check("R6:lifecycle-state-recorded@container.UpdateState", "R2 re-admission", "UpdateState(state) stores that state as the container's state", e.Pos(fn.Pos()), fn, p == nil, e.pathString(p), true)
+	}
+
 	// ------------------------------------------------------------- B: faithful clones
 	grantT := e.Named(pkgTA, "grant")
 	transient := map[string]string{"coldStartTimer": "a running timer belongs to the original grant only"}
